@@ -303,7 +303,7 @@ def prove(pc, goal, timeout_ms=10000, use_cvc5=True, cvc5_timeout_ms=20000, want
 def _has_quantifier(e, memo={}):
     i = e.get_id()
     if i in memo:
-        return memo[i]
+        return memo[i][0]
     seen = set()
     stack = [e]
     found = False
@@ -319,7 +319,7 @@ def _has_quantifier(e, memo={}):
         stack.extend(x.children())
     if len(memo) > 200000:
         memo.clear()
-    memo[i] = found
+    memo[i] = (found, e)  # keep the key term alive: ids of collected terms are reused
     return found
 
 
@@ -390,6 +390,128 @@ def export_noseq(pc, goal, axioms=None):
     return export_query(kept, goal, axioms)
 
 
+_mul_uf = z3.Function("mul!uf", Int, Int, Int)
+
+
+def _linearize(e, memo, hit):
+    """replace every product of two non-constant terms by an uninterpreted function application
+    (forgets arithmetic facts: assumptions get weaker, so `unsat` of the result is still a proof)"""
+    i = e.get_id()
+    if i in memo:
+        return memo[i][0]
+    if z3.is_quantifier(e) and e.is_lambda():
+        r = e
+    elif z3.is_quantifier(e):
+        n = e.num_vars()
+        consts = [z3.Const(f"lin!{e.var_name(j)}!{i}", e.var_sort(j)) for j in range(n)]
+        body = z3.substitute_vars(e.body(), *reversed(consts))
+        nb = _linearize(body, memo, hit)
+        r = z3.ForAll(consts, nb) if e.is_forall() else z3.Exists(consts, nb)
+    elif z3.is_app(e):
+        kids = [_linearize(c, memo, hit) for c in e.children()]
+        if e.decl().kind() == z3.Z3_OP_MUL and z3.is_int(e):
+            nonconst = [k for k in kids if not z3.is_int_value(k)]
+            if len(nonconst) >= 2:
+                hit[0] = True
+                coef = [k for k in kids if z3.is_int_value(k)]
+                prod = nonconst[0]
+                for k in nonconst[1:]:
+                    prod = _mul_uf(prod, k)
+                for c in coef:
+                    prod = c * prod
+                r = prod
+            else:
+                r = e.decl()(*kids) if kids else e
+        else:
+            r = e.decl()(*kids) if kids else e
+    else:
+        r = e
+    memo[i] = (r, e)  # keep the key term alive: ids of collected terms are reused
+    return r
+
+
+def export_linear(pc, goal, axioms=None):
+    """the query with non-linear products made opaque; None if there are none"""
+    q = list(pc) + [z3.Not(goal)]
+    memo, hit = {}, [False]
+    try:
+        lin_q = [_linearize(f, memo, hit) for f in q]
+        lin_extra = [_linearize(f, memo, hit) for f in EXTRA]
+    except Exception:
+        return None
+    if not hit[0]:
+        return None
+    s = z3.Solver()
+    for f in relevant_axioms(q) if axioms is None else axioms:
+        s.add(f)
+    for f in lin_extra:
+        s.add(f)
+    for f in lin_q:
+        s.add(f)
+    return s.to_smt2()
+
+
+def _symbols(e, memo):
+    i = e.get_id()
+    if i in memo:
+        return memo[i][0]
+    out = set()
+    stack = [e]
+    seen = set()
+    while stack:
+        x = stack.pop()
+        j = x.get_id()
+        if j in seen:
+            continue
+        seen.add(j)
+        if z3.is_quantifier(x):
+            stack.append(x.body())
+        elif z3.is_app(x):
+            d = x.decl()
+            if d.kind() == z3.Z3_OP_UNINTERPRETED:
+                out.add(d.name())
+            stack.extend(x.children())
+    memo[i] = (out, e)
+    return out
+
+
+def export_sliced(pc, goal, axioms=None, rounds=3):
+    """cone of influence: only the assumptions connected to the goal through shared symbols (symbols that
+    occur almost everywhere do not count as a connection).  Dropping assumptions is sound for proving."""
+    memo = {}
+    forms = [c for f in pc for c in _conjuncts(f)]
+    allf = forms + list(EXTRA)
+    if len(allf) < 25:
+        return None
+    syms = [_symbols(f, memo) for f in allf]
+    count = {}
+    for ss in syms:
+        for x in ss:
+            count[x] = count.get(x, 0) + 1
+    common = {x for x, c in count.items() if c > 0.3 * len(allf)}
+    rel = _symbols(goal, memo) - common
+    keep = [False] * len(allf)
+    for _ in range(rounds):
+        changed = False
+        for i, ss in enumerate(syms):
+            if not keep[i] and (ss - common) & rel:
+                keep[i] = True
+                rel |= ss - common
+                changed = True
+        if not changed:
+            break
+    kept = [f for f, k in zip(allf, keep) if k]
+    if len(kept) > 0.8 * len(allf):
+        return None
+    q = kept + [z3.Not(goal)]
+    s = z3.Solver()
+    for f in relevant_axioms(q) if axioms is None else axioms:
+        s.add(f)
+    for f in q:
+        s.add(f)
+    return s.to_smt2()
+
+
 def export_relaxed(pc, goal):
     """the same query without the axiom defining `cum` (source of candidate counterexamples)"""
     q = list(pc) + [z3.Not(goal)]
@@ -406,11 +528,25 @@ def export_relaxed(pc, goal):
     return s.to_smt2()
 
 
-def solve_text(text, relaxed, timeout_ms=10000, cvc5_timeout_ms=20000, noseq=None):
+def solve_text(text, relaxed, timeout_ms=10000, cvc5_timeout_ms=20000, noseq=None, linear=None, sliced=None):
     """verdict dict for one exported query"""
+    t0 = time.time()
+    if sliced:
+        s0 = z3.Solver()
+        s0.set("timeout", max(2000, int(timeout_ms) // 4))
+        s0.from_string(sliced)
+        if s0.check() == z3.unsat:
+            return {"status": "discharged", "backend": "z3", "seconds": round(time.time() - t0, 4), "note": "cone of influence"}
+    if linear:
+        # most obligations of code that mentions products need no non-linear reasoning: try the
+        # linear abstraction first (an `unsat` of the weaker query is a proof), it is much faster
+        s0 = z3.Solver()
+        s0.set("timeout", max(2000, int(timeout_ms) // 3))
+        s0.from_string(linear)
+        if s0.check() == z3.unsat:
+            return {"status": "discharged", "backend": "z3", "seconds": round(time.time() - t0, 4), "note": "products treated as uninterpreted"}
     s = z3.Solver()
     s.set("timeout", int(timeout_ms))
-    t0 = time.time()
     s.from_string(text)
     r = s.check()
     dt = time.time() - t0
